@@ -42,5 +42,60 @@ Proof.
     try (intros y Hy; repeat (destruct Hy as [<-|Hy]; [cbn; intros; first [left; reflexivity | right; vm_compute; discriminate | discriminate]|]); contradiction).
 Qed.
 
+(* ---- the boundary of the time domain: boot time plus transport delay = 0 (reception time = timestamp) ----
+   [CleanStream] admits timestamp = reception time ([m_ts x <= m_rt x]) and any order inside a boot, so the theorem above
+   already speaks about these traces; the statements below pin that boundary explicitly. *)
+
+(* Lifecycle::new keeps the first message's timestamp exactly when it does not exceed the reception time
+   (the code's test is the strict `tmsp > reception_time_us`; equality is a valid timestamp) ... *)
+Theorem C08_first_timestamp_kept_iff : forall id m, m_creq m = false ->
+  (l_max_ts (new_lc id m) = m_ts m <-> m_ts m <= m_rt m).
+Proof. exact new_lc_keeps_ts_iff. Qed.
+
+(* ... and then the lifecycle created from that single message starts at reception time minus timestamp (0 when they are
+   equal) and ends at the reception time = start + timestamp *)
+Theorem C08_first_message_exact : forall id m, m_creq m = false -> m_ts m <= m_rt m ->
+  l_start (new_lc id m) = m_rt m - m_ts m /\ l_min_ts (new_lc id m) = m_ts m /\ l_max_ts (new_lc id m) = m_ts m /\
+  end_time (new_lc id m) = m_rt m.
+Proof. exact new_lc_boundary. Qed.
+
+(* every clean trace, the boots with boot time plus delay = 0: whatever message of such a boot comes first (the one with
+   the largest timestamp, the only one, ...), the lifecycle is reported with start 0 and end = the largest timestamp *)
+Theorem C08_zero_boot_exact : forall first_id ms,
+  0 < first_id -> CleanStream ms ->
+  forall x, In x (map fst (fst (detect first_id [] ms))) -> m_rt x = m_ts x ->
+  exists L, tbl_get (m_lc x) (snd (detect first_id [] ms)) = Some L /\ l_ecu L = m_ecu x /\ l_start L = 0 /\
+            end_time L = l_max_ts L /\
+            (forall y, In y ms -> m_ecu y = m_ecu x -> m_rt y = m_ts y -> m_ts y <= l_max_ts L) /\
+            (exists y, In y ms /\ m_ecu y = m_ecu x /\ m_rt y = m_ts y /\ m_ts y = l_max_ts L).
+Proof. exact clean_zero_boot_exact. Qed.
+
+(* non-vacuity at the boundary: ECU 1 boots at absolute time 0 and its first message carries the largest timestamp of
+   the boot (5 s before 3 s), ECU 2 boots at 0 with a single message (timestamp 2 s), ECU 1 reboots after an off-time of
+   exactly 1 ms (messages out of order).  The stream is clean and the model reports (id, ecu, start, end, messages): *)
+Definition c08_example_zero : list msg := mk_msgs 0
+  [(1, 5000000, 5000000, true, false); (2, 2000000, 2000000, true, false); (1, 3000000, 3000000, true, false);
+   (1, 5001700, 700, true, false); (1, 5001000, 0, true, false)].
+
+Example C08_nonvacuous_zero_boot :
+  CleanStream c08_example_zero /\
+  (exists x, In x c08_example_zero /\ 0 < m_ts x /\ m_rt x = m_ts x) /\
+  map (fun kv => (fst kv, l_ecu (snd kv), l_start (snd kv), end_time (snd kv), l_nr (snd kv)))
+      (sort_by_id (snd (detect 1 [] c08_example_zero)))
+  = [(1, 1, 0, 5000000, 2); (2, 2, 0, 2000000, 1); (3, 1, 5001000, 5001700, 2)] /\
+  map (fun x => (m_index (fst x), m_lc (fst x))) (fst (detect 1 [] c08_example_zero))
+  = [(0, 1); (1, 2); (2, 1); (3, 3); (4, 3)].
+Proof.
+  split; [|split; [|split; vm_compute; reflexivity]].
+  - unfold CleanStream, c08_example_zero. cbn [mk_msgs CleanFrom app].
+    repeat split; cbn; try discriminate;
+      try (intros y Hy; repeat (destruct Hy as [<-|Hy]; [cbn; intros; first [left; reflexivity | right; vm_compute; discriminate | discriminate]|]); contradiction).
+  - eexists. split; [left; reflexivity|]. cbn. split; reflexivity.
+Qed.
+
 Print Assumptions C08_clean_boots_exact.
 Print Assumptions C08_nonvacuous.
+Print Assumptions C08_first_timestamp_kept_iff.
+Print Assumptions C08_first_message_exact.
+Print Assumptions C08_zero_boot_exact.
+Print Assumptions C08_nonvacuous_zero_boot.
